@@ -33,6 +33,8 @@ def jobs(tier):
         J.append(dict(side="complete", k=k))
     for k in (1, 2, 3):
         J.append(dict(side="callsites", k=k))
+    for k in range(1, (4 if tier == "quick" else 5) + 1):
+        J.append(dict(side="convert", k=k))
     return J
 
 
@@ -60,16 +62,26 @@ def body(e, L, cfg):
     N = 4 ** k
     if cfg["side"] == "callsites":
         return body_callsites(e, L, cfg)
+    if cfg["side"] == "convert":
+        return body_convert(e, L, cfg)
     ds, vexpr = digits_of(e, k)
     v = z3.Int("v")
     e.assume(z3.And(v >= 0, v < N))
     e.assume(v == vexpr)
 
     def cex(m, **kw):
-        c = {"kind": "succ", "k": k, "v": m.eval(v, model_completion=True).as_long()}
+        c = {"kind": "succ", "k": k, "v": m.eval(v, model_completion=True).as_long(), "warm": cfg["side"] == "arith"}
         c.update(kw)
         return c
     if cfg["side"] == "arith":
+        # history: the same vertex numbers asked at OTHER observed lengths first (a memo keyed by the vertex alone is then stale)
+        for kk in (k + 1, max(1, k - 1)):
+            for vv in range(min(4 ** kk, N, 64)):
+                try:
+                    L.obtain_latters(vv, kk)
+                    L.obtain_formers(vv, kk)
+                except Exception:
+                    pass
         try:
             la = L.obtain_latters(SymInt(v), k)
             fo = L.obtain_formers(SymInt(v), k)
@@ -173,6 +185,35 @@ def body(e, L, cfg):
         return {"status": "inconclusive", "why": "solver unknown"}
     mm = e._ensure_model()
     return {"status": "ok", "sample": {"k": k, "complete_accessor_rows": N}}
+
+
+def body_convert(e, L, cfg):
+    """every graph the library converts holds in column j either -1 or the j-th successor: the complete graph and a sparse sub-graph
+    of order k through accessor -> matrix -> accessor and accessor -> latter map -> accessor (concrete inputs; the subject is the
+    observed length the conversions derive from the size)."""
+    from checks import gen
+    k = cfg["k"]
+    N = 4 ** k
+    full = [[succ_(u, j, k) for j in range(4)] for u in range(N)]
+    sparse = [[(x if (u * 7 + j * 3) % 5 < 2 else -1) for j, x in enumerate(r)] for u, r in enumerate(full)]
+    for rows in (full, sparse):
+        cex = {"kind": "repr", "acc": rows, "roots": [0], "depth": 0, "illegal": None}
+        try:
+            mx = L.accessor_to_adjacency_matrix(symnp.array(rows))
+            back = gen.concrete_rows(L.adjacency_matrix_to_accessor(mx))
+            lm = L.accessor_to_latter_map(symnp.array(rows))
+            back2 = gen.concrete_rows(L.latter_map_to_accessor(lm, k))
+        except core.Abort:
+            raise
+        except core.Inconclusive:
+            raise
+        except Exception as ex:
+            return {"status": "viol", "why": "conversion of an order-%d graph raised %s: %s" % (k, type(ex).__name__, ex), "cex": cex}
+        for name, b in (("matrix", back), ("latter map", back2)):
+            bad = [(u, j) for u in range(N) for j in range(4) if b[u][j] not in (-1, full[u][j])]
+            if bad or b != rows:
+                return {"status": "viol", "why": "accessor -> %s -> accessor at order %d: %s" % (name, k, ("column %s holds neither -1 nor the successor" % (bad[0],)) if bad else "differs from the input"), "cex": cex}
+    return {"status": "ok", "sample": {"k": k, "converted": "complete graph and a sparse sub-graph, both routes"}}
 
 
 def body_callsites(e, L, cfg):
